@@ -11,7 +11,7 @@ for d in seeded/*/; do
   if (cd / && git apply --unsafe-paths --directory="$S" /verif/$d/patch.diff 2>/dev/null); then
     QV_EVIDENCE_DIR=/tmp/qv-evidence-scratch/sw-$id python3 run.py check $prop --root "$S" > /tmp/sw_$id.out 2>&1; rc=$?
   else rc=apply-fail; fi
-  miss=""; grep -q "NOT DETECTED" $d/meta.json && miss="(documented miss)"
+  miss=""; python3 -c "import json,sys;sys.exit(0 if 'NOT DETECTED' in json.load(open('$d/meta.json'))['detected_by'] else 1)" && miss="(documented miss)"
   echo "$id $prop rc=$rc $miss"
   rm -rf "$S"
   ) &
